@@ -302,6 +302,10 @@ class TObj(TSpec):
     def __init__(self, clskey, attrs, src=None):
         self.clskey, self.attrs, self._src = clskey, attrs, src
 
+    @property
+    def value(self):
+        return self.clskey.split(":")[-1].split(".")[-1]
+
     def fresh(self, name, path):
         interp = path.interp
         cls = interp.resolve(self.clskey)
@@ -397,7 +401,9 @@ class Contract:
         self.imports = getattr(cls, "imports", "")
         self.native_call = getattr(cls, "native_call", None)   # source expr for calling the real function
         self.axioms = dict(getattr(cls, "axioms", {}) or {})    # name -> statement of a trusted (unproved) axiom
-        self.lemmas = dict(getattr(cls, "lemmas", {}) or {})    # name -> ("v1 v2 ...", universally valid formula)
+        self.lemmas = dict(getattr(cls, "lemmas", {}) or {})
+        # property id -> substrings: under that property only the obligations whose name contains one of them count
+        self.only = dict(getattr(cls, "only", {}) or {})    # name -> ("v1 v2 ...", universally valid formula)
 
     # evaluation of a clause -------------------------------------------------
     def _env(self, interp, bound, extra=None):
